@@ -1575,10 +1575,67 @@ class Models:
                 out.append(mk(cs[pos:pos + (len(p) if keep else body)]))
                 pos += len(p)
             return out
+        if name in ("partition", "rpartition"):
+            sc = chars(a[0])
+            if len(sc) == 0:
+                pyraise(ValueError, "empty separator")
+            rng = range(0, len(cs) - len(sc) + 1)
+            if name == "rpartition":
+                rng = reversed(rng)
+            for i in rng:
+                if self.truth(W, s_eq(mk(cs[i:i + len(sc)]), a[0])):
+                    return (mk(cs[:i]), mk(cs[i:i + len(sc)]), mk(cs[i + len(sc):]))
+            return (s, "", "") if name == "partition" else ("", "", s)
+        if name in ("removeprefix", "removesuffix"):
+            pc = chars(a[0])
+            if len(pc) == 0 or len(pc) > len(cs):
+                return s
+            if name == "removeprefix":
+                return mk(cs[len(pc):]) if self.truth(W, s_eq(mk(cs[:len(pc)]), a[0])) else s
+            return mk(cs[:-len(pc)]) if self.truth(W, s_eq(mk(cs[-len(pc):]), a[0])) else s
+        if name in ("ljust", "rjust", "center", "zfill"):
+            width = I.concretize_int(W, a[0])
+            fill = "0" if name == "zfill" else (a[1] if len(a) > 1 else " ")
+            if name == "zfill" or not isinstance(fill, str):
+                if name == "zfill" and len(cs) and isinstance(cs[0], str) and cs[0] not in "+-":
+                    return mk(tuple("0" * max(width - len(cs), 0)) + tuple(cs))
+                raise Unsupported(f"str.{name} on this symbolic string")
+            pad = max(width - len(cs), 0)
+            if name == "ljust":
+                return mk(tuple(cs) + tuple(fill * pad))
+            if name == "rjust":
+                return mk(tuple(fill * pad) + tuple(cs))
+            left = pad // 2 + (pad & width & 1)
+            return mk(tuple(fill * left) + tuple(cs) + tuple(fill * (pad - left)))
+        if name in ("split", "rsplit") and (len(a) > 1 or "maxsplit" in k or name == "rsplit"):
+            sep = a[0] if a else k.get("sep")
+            maxsplit = I.concretize_int(W, a[1] if len(a) > 1 else k.get("maxsplit", -1))
+            if sep is None:
+                raise Unsupported("whitespace split with maxsplit on symbolic string")
+            sc = chars(sep)
+            if len(sc) == 0:
+                pyraise(ValueError, "empty separator")
+            pieces = []
+            if name == "split":
+                cur, i, n = [], 0, 0
+                while i < len(cs):
+                    if (maxsplit < 0 or n < maxsplit) and i + len(sc) <= len(cs) and self.truth(W, s_eq(mk(cs[i:i + len(sc)]), sep)):
+                        pieces.append(mk(cur)); cur = []; i += len(sc); n += 1
+                    else:
+                        cur.append(cs[i]); i += 1
+                pieces.append(mk(cur))
+                return pieces
+            end, i, n = len(cs), len(cs) - len(sc), 0
+            while i >= 0:
+                if (maxsplit < 0 or n < maxsplit) and self.truth(W, s_eq(mk(cs[i:i + len(sc)]), sep)):
+                    pieces.append(mk(cs[i + len(sc):end])); end = i; i -= len(sc); n += 1
+                else:
+                    i -= 1
+            pieces.append(mk(cs[:end]))
+            pieces.reverse()
+            return pieces
         if name == "split":
             sep = a[0] if a else k.get("sep")
-            if len(a) > 1 or "maxsplit" in k:
-                raise Unsupported("split with maxsplit on symbolic")
             if sep is None:
                 out, cur = [], []
                 for c in cs:
@@ -1604,15 +1661,14 @@ class Models:
             return out
         if name == "replace":
             old, new = a[0], a[1]
-            if len(a) > 2:
-                raise Unsupported("replace count")
+            limit = I.concretize_int(W, a[2]) if len(a) > 2 else -1
             oc, nc = chars(old), chars(new)
             if len(oc) == 0:
                 raise Unsupported("replace of empty string")
-            out, i = [], 0
+            out, i, done = [], 0, 0
             while i < len(cs):
-                if i + len(oc) <= len(cs) and self.truth(W, s_eq(mk(cs[i:i + len(oc)]), old)):
-                    out.extend(nc); i += len(oc)
+                if (limit < 0 or done < limit) and i + len(oc) <= len(cs) and self.truth(W, s_eq(mk(cs[i:i + len(oc)]), old)):
+                    out.extend(nc); i += len(oc); done += 1
                 else:
                     out.append(cs[i]); i += 1
             return mk(out)
@@ -1632,12 +1688,14 @@ class Models:
             return -1
         if name == "count":
             sub = chars(a[0])
-            if len(sub) != 1:
-                raise Unsupported("count of multi-char substring")
-            n = 0
-            for c in cs:
-                if self.truth(W, ch_eq(c, sub[0])):
-                    n += 1
+            if len(sub) == 0:
+                return len(cs) + 1
+            n, i = 0, 0
+            while i + len(sub) <= len(cs):
+                if self.truth(W, s_eq(mk(cs[i:i + len(sub)]), mk(sub))):
+                    n += 1; i += len(sub)
+                else:
+                    i += 1
             return n
         if name == "format":
             fmt = s
@@ -1676,8 +1734,7 @@ class Models:
             return self.getitem(W, s, a[0])
         if name == "encode":
             raise Unsupported("encode on symbolic string")
-        if name in ("ljust", "rjust", "center", "zfill", "expandtabs", "partition", "rpartition", "rsplit", "translate",
-                    "removeprefix", "removesuffix"):
+        if name in ("expandtabs", "translate"):
             raise Unsupported(f"str.{name} on symbolic string")
         raise Unsupported(f"str.{name}")
 
